@@ -126,6 +126,41 @@ AS4_CASES = [
 ]
 
 
+def generated_as4_cases():
+    """Systematic AS_PATH / AS4_PATH pairs: a true path T of <= 3 segments (SEQUENCE or SET, 1-2 AS numbers each) with one
+    AS number above 65535, as a NEW speaker sends it to an OLD one (AS_TRANS in AS_PATH; AS4_PATH = T, or T from the
+    segment holding the large AS), optionally prepended by OLD speakers on the way (to AS_PATH only)."""
+    small = [64601, 64602, 64603, 64604, 64605, 64606]
+    prepends = [(), ((2, (64510,)),), ((2, (64510, 64511)),), ((2, (64510,)), (1, (64512, 64513)), (2, (64514,))), ((1, (64512, 64513)),)]
+    out = []
+    for n in (1, 2, 3):
+        for types in itertools.product((2, 1), repeat=n):
+            for sizes in itertools.product((1, 2), repeat=n):
+                total = sum(sizes)
+                for big in range(total):
+                    segs, k = [], 0
+                    for t, sz in zip(types, sizes):
+                        asns = []
+                        for _ in range(sz):
+                            asns.append(70000 + k if k == big else small[k])
+                            k += 1
+                        segs.append((t, tuple(asns)))
+                    T = tuple(segs)
+                    as2 = tuple((t, tuple(w.AS_TRANS if a > 65535 else a for a in asns)) for t, asns in T)
+                    first_big = [i for i, (t, asns) in enumerate(T) if any(a > 65535 for a in asns)][0]
+                    for pre in prepends:
+                        for as4 in (T, T[first_big:]):
+                            path2 = w.merge_segments(pre + as2) if pre and pre[-1][0] == 2 and as2[0][0] == 2 else pre + as2
+                            out.append((tuple(path2), as4))
+    # de-duplicate, keep order
+    seen, res = set(), []
+    for c in out:
+        if c not in seen:
+            seen.add(c)
+            res.append(c)
+    return res
+
+
 def attr_maps(k):
     yield {}
     keys = list(OPT_ATTRS)
@@ -425,6 +460,9 @@ def cases(tier, s):
             for p2, p4 in AS4_CASES:
                 yield dict(base, struct=st, path=p2, path4=p4)
                 yield dict(base, struct=st, path=p2, path4=p4, attrs={w.MED: 0}, rot=2)
+            if st is core_structs[0] or tier != 'quick':
+                for p2, p4 in generated_as4_cases():
+                    yield dict(base, struct=st, path=p2, path4=p4)
         # encodings: every order of the first 3 attributes, rotations, extended length, partial bit
         full = {w.MED: 0, w.COMMUNITIES: (0x10002,), 0x99: '0102', w.AGGREGATOR: (65010, '10.9.8.7')}
         for perm in itertools.permutations(range(3)):
